@@ -133,7 +133,19 @@ def judge(case):
     return (None if close(got, exp, 1e-9) else 'entry differs from the product of basis functions: max err %.2e' % float(np.max(np.abs(got - exp)))), res
 
 
-def hocur_case(seed):
+def clear_ranks(b, lo=1e-12, hi=1e-3):
+    """every unfolding of the dense tensor has a clear numerical rank: each singular value is either above hi*s0 or below lo*s0
+    (cross approximation inverts sub-matrices of the unfoldings: its rounding error is eps times their condition number, and a
+    singular value in the gap makes 'the true rank' itself ambiguous)"""
+    sh = b.shape
+    for k in range(1, len(sh)):
+        sv = np.linalg.svd(b.reshape(int(np.prod(sh[:k])), -1), compute_uv=False)
+        if sv[0] == 0 or any(lo * sv[0] <= v <= hi * sv[0] for v in sv):
+            return False
+    return True
+
+
+def hocur_case(seed, dup=False):
     rng = random.Random(seed)
     np.random.seed(seed % (2 ** 31))
     d = rng.randint(1, 3)
@@ -141,18 +153,29 @@ def hocur_case(seed):
     p = rng.randint(1, 3)
     x = rand_x(rng, d, m, 'float')
     phi = [[rand_fun(rng, d, 'float') for _ in range(rng.randint(1, 3))] for _ in range(p)]
-    desc = dict(kind='hocur', d=d, m=m, p=p, n=[len(l) for l in phi])
+    if dup:          # targeted stream: an exactly repeated function in one mode and one function of large magnitude
+        i = rng.randrange(p)
+        phi[i].insert(rng.randrange(len(phi[i]) + 1), rng.choice(phi[i]))
+        j = rng.randrange(p)
+        phi[j][rng.randrange(len(phi[j]))] = tdt.Legendre(rng.randrange(d), rng.randint(2, 4), domain=rng.uniform(0.4, 0.8))
+    desc = dict(kind='hocur', d=d, m=m, p=p, n=[len(l) for l in phi], dup=dup)
     try:
-        t = tdt.hocur(x, phi, ranks=m, repeats=rng.randint(1, 2), multiplier=10, progress=False)
         ref = tdt.basis_decomposition(x, phi)
+        b = dense(ref.cores)
+        if not clear_ranks(b.reshape([len(l) for l in phi] + [m])):
+            return None, dict(desc, skipped='ill-conditioned')
+        t = tdt.hocur(x, phi, ranks=m, repeats=rng.randint(1, 2), multiplier=10, progress=False)
     except Exception as e:
         return 'raised %r' % (e,), desc
-    a, b = dense(t.cores), dense(ref.cores)
+    a = dense(t.cores)
     if a.shape != b.shape:
         return 'shape %s vs %s' % (a.shape, b.shape), desc
     if not close(a, b, 1e-6):
         return 'hocur with ranks >= true ranks does not reproduce the tensor: rel err %.2e' % (np.max(np.abs(a - b)) / max(1, np.max(np.abs(b)))), desc
     return None, desc
+
+
+HOCUR_CORPUS = [(11693263164621, False), (65410566293140, True), (80320946483796, True), (71834013612011, True), (174963491946254, True)]
 
 
 def run(ctx):
@@ -200,12 +223,15 @@ def run(ctx):
             ctx.fail('%s: %s' % (case['kind'], msg), {'gen': 'gen_case', 'case_seed': cs, 'mode': 'float', 'case': case['desc']}, tags={'op': case['kind']})
     for k in range(40 if quick else 600):
         cs = ctx.rng.getrandbits(48)
-        msg, desc = hocur_case(cs)
+        dup = k % 3 == 2
+        if k < len(HOCUR_CORPUS):      # minimised earlier failures run first (F24)
+            cs, dup = HOCUR_CORPUS[k]
+        msg, desc = hocur_case(cs, dup)
         ctx.side_cases += 1
         ctx.evaluations += 1
-        ctx.count('op:hocur')
+        ctx.count('op:hocur' + ('_dup' if dup else '') + (':skipped-ill-conditioned' if desc.get('skipped') else ''))
         if msg:
-            ctx.fail('hocur: ' + msg, {'gen': 'hocur_case', 'case_seed': cs, 'case': desc}, tags={'op': 'hocur'})
+            ctx.fail('hocur: ' + msg, {'gen': 'hocur_case', 'case_seed': cs, 'dup': dup, 'case': desc}, tags={'op': 'hocur'})
     return ctx.finish(level='proof', checker_cmd='make -C coq Props/C15.vo Check/C15.vo && coqc Props/C15.v', trusted=TRUSTED, explanation=RULE)
 
 
@@ -223,7 +249,7 @@ def replay(obj):
         print('replay %s: %s' % (case['kind'], msg or 'OK (no failure)'))
         return 1 if msg else 0
     if r.get('gen') == 'hocur_case':
-        msg, desc = hocur_case(r['case_seed'])
+        msg, desc = hocur_case(r['case_seed'], r.get('dup', False))
         print('replay hocur: %s' % (msg or 'OK (no failure)'))
         return 1 if msg else 0
     print('replay: see file')
